@@ -537,7 +537,7 @@ func wlHttp(seed int64) {
 				}
 				mu.Unlock()
 				if rw == nil {
-					rw = goh.NewConnection(fmt.Sprintf("h %d", k))
+					rw = goh.NewConnection(trAddr(k))
 				}
 				rctx, rcancel := context.WithTimeout(ctx, time.Millisecond)
 				rw.Read(rctx)
@@ -873,6 +873,59 @@ func wlWs(seed int64) {
 	p.close()
 }
 
+// envelopes BY REFERENCE all the way: a client with a stats handler -> the in-process channel transport -> a goat.Proxy
+// (which edits the envelope it forwards in place: ProxyRecord) -> channel -> a server with a stats handler; then the same
+// client -> channel -> a Demux -> the server. Once Write has handed an envelope to a by-reference transport the envelope
+// belongs to whoever reads it: anything the writer (or its stats / logging code) still does with it races with the far end.
+func wlByRef(seed int64) {
+	shC, shS := &raceStatsHandler{}, &raceStatsHandler{}
+	{ // through a proxy
+		ctx, cancel := context.WithCancel(context.Background())
+		p := goat.NewProxy(ctx, "proxy", func(id string) (goat.RpcReadWriter, error) { return nil, errors.New("no dial") }, nil, nil)
+		done := make(chan struct{})
+		go func() { p.Serve(); close(done) }()
+		c2p, p2c := make(chan *Rpc, 4), make(chan *Rpc, 4)
+		s2p, p2s := make(chan *Rpc, 4), make(chan *Rpc, 4)
+		p.AddClient("c", goat.NewGoatOverChannel(c2p, p2c))
+		p.AddClient("s", goat.NewGoatOverChannel(s2p, p2s))
+		srv := newEchoServer("s", raceEcho(), goat.StatsHandler(shS))
+		served := make(chan struct{})
+		go func() { srv.Serve(ctx, goat.NewGoatOverChannel(p2s, s2p)); close(served) }()
+		cc := goat.NewClientConn(goat.NewGoatOverChannel(p2c, c2p), "c", "s", goat.WithStatsHandler(shC))
+		var wg sync.WaitGroup
+		raceTrafficT(cc, 4, 6, &wg, time.Second, 2*time.Second)
+		wg.Wait()
+		cc.Close()
+		srv.Stop()
+		cancel()
+		<-served
+		<-done
+	}
+	{ // through a demultiplexer
+		ctx, cancel := context.WithCancel(context.Background())
+		c2d, d2c := make(chan *Rpc, 4), make(chan *Rpc, 4)
+		srv := newEchoServer("s", raceEcho(), goat.StatsHandler(shS))
+		var servers sync.WaitGroup
+		d := goat.NewDemux(ctx, goat.NewGoatOverChannel(c2d, d2c), func(r *goat.Rpc) string { return r.GetHeader().GetSource() },
+			func(rw goat.RpcReadWriter) {
+				servers.Add(1)
+				go func() { defer servers.Done(); srv.Serve(ctx, rw) }()
+			})
+		run := make(chan struct{})
+		go func() { d.Run(); close(run) }()
+		cc := goat.NewClientConn(goat.NewGoatOverChannel(d2c, c2d), "c", "s", goat.WithStatsHandler(shC))
+		var wg sync.WaitGroup
+		raceTrafficT(cc, 4, 6, &wg, time.Second, 2*time.Second)
+		wg.Wait()
+		cc.Close()
+		srv.Stop()
+		d.Stop()
+		cancel()
+		<-run
+		servers.Wait()
+	}
+}
+
 func raceWorkloads() []raceWorkload {
 	return []raceWorkload{
 		{"mux", wlMux(false)},
@@ -883,6 +936,7 @@ func raceWorkloads() []raceWorkload {
 		{"http", wlHttp},
 		{"opts", wlOpts},
 		{"ws", wlWs},
+		{"byref", wlByRef},
 	}
 }
 
